@@ -19,13 +19,12 @@ TGT = {("global", "scalar"): "g", ("global", "elem"): "ga[0]", ("global", "field
 for _t, _n in (("global", "g"), ("local", "l2"), ("valparam", "p"), ("refparam", "r")):
     TGT[(_t, "condl")] = "(q == 0 ? l : %s)" % _n
     TGT[(_t, "condr")] = "(q == 0 ? %s : l)" % _n
-    TGT[(_t, "comma")] = "(l, %s)" % _n
 PARAM = {"scalar": "int %s%s", "elem": "int %s%s[2]", "field": "S %s%s"}
 GLOB = {"scalar": "g", "elem": "ga", "field": "gs"}
 CGLOB = {"scalar": "cg", "elem": "cga", "field": "cgs"}   # constants: arguments of the write-free twins (compile-time contexts)
 LOC = {"scalar": "l", "elem": "la", "field": "ls"}
 for _d in (PARAM, GLOB, CGLOB, LOC):
-    for _s in ("condl", "condr", "comma"):
+    for _s in ("condl", "condr"):
         _d[_s] = _d["scalar"]
 WF = {"assign": "%s = 1", "addassign": "%s += 1", "preinc": "++%s", "postinc": "%s++", "predec": "--%s", "postdec": "%s--"}
 
